@@ -25,7 +25,8 @@ class Prop(SeqProp):
     rule = ("score vectors with ties and zeros, n<=8 (thorough n<=10; all vectors over {0,1,2} up to n=5 exhaustively), the "
             "whole sorted_combinations stream (combination + key) and min-combination searches for intervals around every "
             "attainable sum, the empty interval and intervals beyond the maximum; compared with the Lean model (exact "
-            "tie-breaks) and judged against itertools.combinations brute force (ties free); non-trivial = n>=3")
+            "tie-breaks) and judged against itertools.combinations brute force (ties free); a direct call on the scores as "
+            "elements (repeats) with key=sum (model: sortedCombinationsE); non-trivial = n>=3")
     trusted_base = ["Lean 4.33.0 kernel", "axioms: propext, Classical.choice, Quot.sound (audited per theorem)",
                     "hand-written model Model/Generic.lean (priority queue as a list with the Python tuple order, pop = minimum) "
                     "tied to generic.py by this correspondence run", "heapq modelled as: pop returns the minimum of a strict total order"]
